@@ -59,7 +59,7 @@ def run_impl(p, ops, arch):
             arch += _as_iterable(items)
         elif kind == "iadd1":
             arch += items[0]
-        obs.append((kind, flag, list(arch._contents)))
+        obs.append((kind, flag, list(arch)))
     return obs
 
 
@@ -163,9 +163,9 @@ def run(ctx, drv):
             rng.shuffle(sh)
             a2 = C.Archive()
             a2 += sh
-            if {id(x) for x in a2._contents} != {id(x) for x in final}:
+            if {id(x) for x in list(a2)} != {id(x) for x in final}:
                 ctx.fail("order-dependent", {"objs": [list(s.objectives) for s in flat], "maximise": list(dirs)},
-                         sorted(map(id, a2._contents)) and "differs", "same membership", "core.Archive.add")
+                         sorted(map(id, list(a2))) and "differs", "same membership", "core.Archive.add")
     # ---- the stand-alone filter nondominated() on its own stream: few objectives (incl. one), all-infeasible and mixed sets,
     # ties; judged against the archive built from the same list and against the definition (nobody offered is better)
     for k in range(1500 if ctx.quick() else 30000):
@@ -188,8 +188,8 @@ def run(ctx, drv):
             key = lambda s: (tuple(map(float, s.objectives)), float(s.constraint_violation))
             if {key(s) for s in nd} != {key(s) for s in want}:
                 ctx.fail("nondominated-is-not-the-nondominated-subset", inp, sorted(key(s) for s in nd), sorted({key(s) for s in want}), "core.nondominated")
-            elif {key(s) for s in nd} != {key(s) for s in arch._contents}:
-                ctx.fail("nondominated-differs-from-archive", inp, sorted(key(s) for s in nd), sorted(key(s) for s in arch._contents), "core.nondominated")
+            elif {key(s) for s in nd} != {key(s) for s in list(arch)}:
+                ctx.fail("nondominated-differs-from-archive", inp, sorted(key(s) for s in nd), sorted(key(s) for s in list(arch)), "core.nondominated")
         ctx.case(("nd", repr(inp)), len(want) < len(sols))
     ctx.count("standalone_filter_cases", 1500 if ctx.quick() else 30000)
     # ---- one problem object whose directions are declared again between two uses (default-dominance archive and filter)
@@ -207,8 +207,8 @@ def run(ctx, drv):
             want = {key(s) for s in sols if not any(plat.expected_cmp(constrained, dirs, t, s) < 0 for t in sols)}
             inp = {"maximise": list(dirs), "constrained": constrained, "solutions": [[list(map(float, s.objectives)), float(s.constraint_violation)] for s in sols],
                    "problem_object": "fresh" if round_ == 0 else "used before with other directions, then re-declared"}
-            if {key(s) for s in arch._contents} != want:
-                ctx.fail("members-not-nondominated-subset", inp, sorted(key(s) for s in arch._contents), sorted(want), "core.Archive.add")
+            if {key(s) for s in list(arch)} != want:
+                ctx.fail("members-not-nondominated-subset", inp, sorted(key(s) for s in list(arch)), sorted(want), "core.Archive.add")
                 break
             if isinstance(nd, str) or {key(s) for s in nd} != want:
                 ctx.fail("nondominated-is-not-the-nondominated-subset", inp, nd if isinstance(nd, str) else sorted(key(s) for s in nd), sorted(want), "core.nondominated")
